@@ -135,7 +135,7 @@ def gate_and_options(ctx, F):
     b = M.body
     # shape of the gate operands
     gates = [e for p in M.paths if p["end"] == "return" for e in p["events"] if e[0] == "len_gate"]
-    want_len = ("call", "core::option::Option::<T>::unwrap_or", (("call", V("pl"), (("ref", ("deref", P(1))),)), C(0xFFFFFFFF)))
+    want_len = ("call", "core::option::Option::<T>::unwrap_or", (("call", V("pl"), (P(1),)), C(0xFFFFFFFF)))
     okg = bool(gates)
     for g in gates:
         e = g[2]
